@@ -539,6 +539,23 @@ theorem Told.settled {v : Vault} {t : Nat} {d : Node} (h : Told v t d) (hu : d.u
   · exact h1
   · have := h1.2; simp only [Gen.transitionTarget] at this; omega
 
+/-- **Told at any time before the transition (the code as repaired today, `Gen.transitionLateSwitch = true`).** Whenever
+the hand-over reaches a remainer — before or after it stored `transition − 1` — and whatever happens next (any events that
+are not a further hand-over to it), once it runs and stores `transition − 1` it holds the new vault and nothing is pending:
+the form required of the members of `U` in `Healthy`. -/
+theorem c07_settled_any_time (s : State) (hc : s.cfg.lateSwitch = true) (i : Nat) (v : Vault) (t : Nat) (evs : List Ev)
+    (hk : ∀ ev ∈ evs, ev.keeps i) (hu : (((s.apply (.announce i v t)).run evs).node i).up = true)
+    (hh : t - 1 ≤ (((s.apply (.announce i v t)).run evs).node i).head) :
+    (((s.apply (.announce i v t)).run evs).node i).vault = v ∧ (((s.apply (.announce i v t)).run evs).node i).pend = none :=
+  (told_run i evs _ hk (c07_registration_any_time s hc i v t)).settled hu hh
+
+/-- the same for the code before the repair: only when the hand-over arrives before `transition − 1` is stored -/
+theorem c07_settled_partial (s : State) (i : Nat) (v : Vault) (t : Nat) (hearly : (s.node i).head < t - 1) (evs : List Ev)
+    (hk : ∀ ev ∈ evs, ev.keeps i) (hu : (((s.apply (.announce i v t)).run evs).node i).up = true)
+    (hh : t - 1 ≤ (((s.apply (.announce i v t)).run evs).node i).head) :
+    (((s.apply (.announce i v t)).run evs).node i).vault = v ∧ (((s.apply (.announce i v t)).run evs).node i).pend = none :=
+  (told_run i evs _ hk (c07_registration_partial s i v t hearly)).settled hu hh
+
 /-- **Round by round.** With `c = t − 1` (`t` the transition round, `t ≥ 1`): every round `r ≥ t` is stored by every member
 of `U` after `r − t + 2` fair rounds (when the clocks show `r + 1`), and after `r − t + 1` (when they show `r`) if `U` was
 level at `t − 1`. -/
